@@ -35,7 +35,10 @@ type c07Variant struct {
 	Clock       int64             `json:"clock_offset,omitempty"` // the run starts this many nanoseconds after the baseline's wall-clock instant, with another pid
 	ExtraFiles  map[string][]byte `json:"extra_files,omitempty"`  // further input files of the world (a twin of the program for an earlier invocation)
 	Block       string            `json:"block,omitempty"`        // a regular file where an earlier invocation must create a directory; removed before the observed invocation
-	SdkWd       string            `json:"sdk_wd,omitempty"`       // the observed invocation is sdk.RunThriftgoAsSDK(SdkWd, ...); its baseline is the same call with nothing before it
+	PreludeCwd  []string          `json:"prelude_cwd,omitempty"`  // the directory the process stands in during earlier invocation i
+	RelOut      string            `json:"rel_out,omitempty"`      // the observed invocation names its output directory relative to the working directory (-o RelOut); RelOutAbs is where that is
+	RelOutAbs   string            `json:"rel_out_abs,omitempty"`
+	SdkWd       string            `json:"sdk_wd,omitempty"` // the observed invocation is sdk.RunThriftgoAsSDK(SdkWd, ...); its baseline is the same call with nothing before it
 }
 
 // c07BaseFor: the run a variant is compared with.
@@ -43,6 +46,7 @@ func c07BaseFor(v *c07Variant) *c07Variant {
 	b := &c07Variant{Name: "baseline", MapMode: "sorted", Strategy: "rtb", Parallelism: 1}
 	if v != nil && v.SdkWd != "" {
 		b.Name, b.SdkWd = "sdk-baseline", v.SdkWd
+		b.RelOut, b.RelOutAbs = v.RelOut, v.RelOutAbs
 	}
 	return b
 }
@@ -86,10 +90,16 @@ func (p *c07Pair) spec(v *c07Variant) *simrt.Spec {
 	}
 	cc.Prelude = v.Prelude
 	cc.SdkWd = v.SdkWd
+	if v.RelOut != "" {
+		cc.OutDir = v.RelOut
+	}
 	if len(v.Prelude) > 0 {
 		cc.Prelude = append(append([][]string{}, p.PreInv...), v.Prelude...)
 		if len(v.PreludeWd) > 0 {
 			cc.PreludeWd = append(make([]string, len(p.PreInv)), v.PreludeWd...)
+		}
+		if len(v.PreludeCwd) > 0 {
+			cc.PreludeCwd = append(make([]string, len(p.PreInv)), v.PreludeCwd...)
 		}
 	}
 	cc.Extra = p.Extra
@@ -151,6 +161,9 @@ func (p *c07Pair) spec(v *c07Variant) *simrt.Spec {
 }
 
 func (v *c07Variant) outDir() string {
+	if v.RelOut != "" {
+		return v.RelOutAbs
+	}
 	if v.OutDir == "" {
 		return "/work/out"
 	}
@@ -700,6 +713,7 @@ func c07Isolate(a *artefacts, f *c07Found) []*c07Found {
 	try(func(w *c07Variant) { w.Prelude, w.PreludeWd, w.Block, w.ExtraFiles = nil, nil, "", nil })
 	try(func(w *c07Variant) { w.Block = "" })
 	try(func(w *c07Variant) { w.PreludeWd = nil })
+	try(func(w *c07Variant) { w.PreludeCwd = nil })
 	try(func(w *c07Variant) { w.Stale = false })
 	try(func(w *c07Variant) { w.Clock = 0 })
 	try(func(w *c07Variant) { w.OutDir = "" })
@@ -713,6 +727,9 @@ func c07Isolate(a *artefacts, f *c07Found) []*c07Found {
 		}
 		if v.SdkWd != "" && len(v.PreludeWd) > 0 {
 			d = append(d, "sdk-working-directories")
+		}
+		if len(v.PreludeCwd) > 0 && len(v.Prelude) > 0 {
+			d = append(d, "process-working-directory")
 		}
 		if v.Block != "" && len(v.Prelude) > 0 {
 			d = append(d, "failed-earlier-run")
@@ -1045,6 +1062,8 @@ func c07SdkFiles(r *simrt.Rand, p *c07Pair) {
 
 func c07SdkVariant(r *simrt.Rand, p *c07Pair) *c07Variant {
 	v := &c07Variant{Name: "sdk-after-other-working-directories", MapMode: "sorted", Strategy: "rtb", Parallelism: 1, SdkWd: p.Cwd}
+	// SDK users name the output directory relative to the project: -o gen-sdk-out
+	v.RelOut, v.RelOutAbs = "gen-sdk-out", filepath.Join(p.Cwd, "gen-sdk-out")
 	main := filepath.Join(p.Cwd, p.Main)
 	rec := []string{}
 	if p.Cfg.Rec {
@@ -1061,6 +1080,18 @@ func c07SdkVariant(r *simrt.Rand, p *c07Pair) *c07Variant {
 			wd = "/somewhere/else"
 		}
 		v.PreludeWd = append(v.PreludeWd, wd)
+		v.PreludeCwd = append(v.PreludeCwd, "")
+	}
+	if r.Chance(1, 2) {
+		// the very same call for the very same project made earlier, while the host program stood in
+		// another directory (it changes its working directory between calls); the process is back
+		// where it started when the observed call is made
+		inv := append([]string{"thriftgo", "-g", p.Cfg.gArg()}, rec...)
+		inv = append(inv, p.Extra...)
+		inv = append(inv, "-o", v.RelOut, main)
+		v.Prelude = append(v.Prelude, inv)
+		v.PreludeWd = append(v.PreludeWd, p.Cwd)
+		v.PreludeCwd = append(v.PreludeCwd, []string{"/somewhere/deep/else", "/srv", p.Cwd + "/sub/dir"}[r.Intn(3)])
 	}
 	return v
 }
